@@ -104,3 +104,56 @@ def weighted(cls, type_, acts, aggr, term_value, tsukamoto_value, term_type):
     if wt == 0:
         return "value", math.nan
     return "value", ws / wt if cls == "WeightedAverage" else ws
+
+
+# ---------------------------------------------------------------------------------------------------
+# C09: the property's reductions from a sampled pair (x, y), applied to the arrays the CODE computed
+# (link 2 of DESIGN.md C09).  x, y are lists of floats.  Returns a set of acceptable values (usually one):
+# for Bisector every mean of a union of the groups of exactly tied points below / at / above one half.
+def reductions(x, y):
+    import itertools
+
+    n = len(x)
+    out = {}
+    sy = math.fsum(v for v in y if not math.isnan(v))
+    anynan = any(math.isnan(v) for v in y)
+    if anynan:
+        out["Centroid"] = [math.nan]
+    else:
+        out["Centroid"] = [math.fsum(a * b for a, b in zip(x, y)) / sy] if sy != 0 else [math.nan]
+    ymax = max(y) if not anynan else math.nan
+    idx = [i for i in range(n) if y[i] > 0 and y[i] == ymax] if not anynan else []
+    # ties in y == y.max(): values that are equal exactly in rational arithmetic may differ by an ulp in floats
+    near = [i for i in range(n) if not anynan and y[i] > 0 and abs(y[i] - ymax) <= 1e-12]
+    def pick(ix):
+        if not ix:
+            return {"SmallestOfMaximum": math.nan, "MeanOfMaximum": math.nan, "LargestOfMaximum": math.nan}
+        xs = [x[i] for i in ix]
+        return {"SmallestOfMaximum": min(xs), "MeanOfMaximum": math.fsum(xs) / len(xs), "LargestOfMaximum": max(xs)}
+    strict, loose = pick(idx), pick(near)
+    for k in strict:
+        out[k] = [strict[k]] + ([loose[k]] if near != idx else [])
+    # Bisector
+    if sy == 0 or anynan and sy == 0:
+        out["Bisector"] = [math.nan]
+    else:
+        cum, acc = [], F(0)
+        for v in y:
+            acc += F(0) if math.isnan(v) else F(v)
+            cum.append(acc)
+        tot = cum[-1]
+        dev = [abs(c / tot - F(1, 2)) for c in cum]
+        m = min(dev)
+        tied = [i for i in range(n) if dev[i] - m <= F(1, 10**12)]
+        below = [i for i in tied if cum[i] / tot < F(1, 2) - F(1, 10**13)]
+        above = [i for i in tied if cum[i] / tot > F(1, 2) + F(1, 10**13)]
+        at = [i for i in tied if i not in below and i not in above]
+        vals = []
+        for r in range(1, 4):
+            for combo in itertools.combinations([g for g in (below, at, above) if g], r):
+                ix = sorted(i for g in combo for i in g)
+                vals.append(math.fsum(x[i] for i in ix) / len(ix))
+        # a single point of a tied group is what rounding may leave, too
+        vals += [x[i] for i in tied]
+        out["Bisector"] = vals
+    return out
